@@ -104,10 +104,10 @@ macro_rules! static_slice {
 pub mod vshim {
 use vstd::prelude::*;
 verus! {
-// R17 shims (trusted, one line each): the UTF-8 bytes of a &str
-pub uninterp spec fn utf8(cs: Seq<char>) -> Seq<u8>;
-#[verifier::external_body] pub fn str_len(s: &str) -> (r: usize) ensures r == utf8(s@).len() { s.len() }
-#[verifier::external_body] pub fn str_bytes(s: &str) -> (r: &[u8]) ensures r@ == utf8(s@) { s.as_bytes() }
+// the UTF-8 bytes of a &str: vstd's encoding function (str::len / str::as_bytes are specified by vstd in terms of it)
+pub open spec fn utf8(cs: Seq<char>) -> Seq<u8> { vstd::utf8::encode_utf8(cs) }
+// AXIOM: a str's UTF-8 byte length fits usize (type invariant of str; vstd states str::len as a clipped cast)
+#[verifier::external_body] pub proof fn ax_str_len_fits(s: &str) ensures utf8(s@).len() <= usize::MAX {}
 }
 }
 pub use crate::error::Error;
@@ -137,9 +137,7 @@ def extract(repo):
     for m in CORE_MODULES:
         body = _clean(ex, rd(m + '.rs'))
         if m == 'symmetricstate':
-            # R17: Verus has no specification connecting str::len / str::as_bytes; route them through two trusted shims
-            body = _sub(ex, 'R17', r'handshake_name\.len\(\)', 'crate::vshim::str_len(handshake_name)', body, expect=1)
-            body = _sub(ex, 'R17', r'handshake_name\.as_bytes\(\)', 'crate::vshim::str_bytes(handshake_name)', body, expect=2)
+            pass
         out.append(_wrap(m, _pub_fields(ex, body), m + '.rs'))
         ex.modules.append((m, m + '.rs'))
 
@@ -229,7 +227,6 @@ impl CryptoResolver for DefaultResolver {
     ex.dropped = [
         'R2: #[cfg(test)] modules, inner doc comments/attributes, impl Display/Debug/Error, impl PartialEq for Keypair (subtle)',
         'R12: every FromStr::from_str, HandshakeChoice::parse_pattern_and_modifier, HandshakeChoice::is_fallback are #[verifier::external] in this unit; they are verified in the parser unit',
-        'R17: in SymmetricState::initialize, handshake_name.len()/.as_bytes() go through two trusted one-line shims (vshim::str_len/str_bytes)',
         'R18: `x.ok_or(K::V)?` is rewritten to `x.ok_or(Error::from(K::V))?` (the From::from that `?` applies is made explicit; Verus does not specify non-identity `?` conversions)',
         'R5: supertraits CryptoRng+RngCore of trait Random dropped (foreign crate)',
         'features hfs, risky-raw-split, nightly, no_std are compiled out (cfg)',
